@@ -140,6 +140,9 @@ def main():
         os.execve(sys.executable, [sys.executable] + sys.argv, env)
 
     mod = load_module(prop)
+    if getattr(mod, 'NEEDS_SHIM', False):
+        from harness import shim
+        shim.reexec_with_preload()      # builds .build/vshim.so if needed; no-op when already preloaded
 
     if a.replay:
         core.ensure_klepto()
